@@ -24,9 +24,9 @@ func inRange(q *big.Int) bool { return q.Sign() >= 0 && q.Cmp(maxU64) <= 0 }
 
 func qName(q *big.Int) string {
 	names := map[string]string{
-		new(big.Int).Neg(two64).String():                                "-2^64",
+		new(big.Int).Neg(two64).String():                                  "-2^64",
 		new(big.Int).Neg(new(big.Int).Add(two63, big.NewInt(1))).String(): "-2^63-1",
-		new(big.Int).Add(two63, big.NewInt(1)).String():                 "2^63+1",
+		new(big.Int).Add(two63, big.NewInt(1)).String():                   "2^63+1",
 		two63.String(): "2^63", maxU64.String(): "2^64-1", two64.String(): "2^64", two65.String(): "2^65",
 	}
 	if n, ok := names[q.String()]; ok {
@@ -77,10 +77,10 @@ func qNode(q *big.Int, enc int) *space.Node {
 
 // shapes
 const (
-	shapeInputs = iota // one output with q, funded by inputs carrying the asset (q > 0), or nothing (q == 0)
-	shapeMint          // one output with q, funded by mint q (burn if negative)
-	shapePair          // outputs +|q| and -|q|, nothing funds them
-	shapeUnfunded      // control: one output with q and nothing funding it (must be rejected by conservation for q != 0)
+	shapeInputs   = iota // one output with q, funded by inputs carrying the asset (q > 0), or nothing (q == 0)
+	shapeMint            // one output with q, funded by mint q (burn if negative)
+	shapePair            // outputs +|q| and -|q|, nothing funds them
+	shapeUnfunded        // control: one output with q and nothing funding it (must be rejected by conservation for q != 0)
 )
 
 var shapeNames = []string{"single/funded-by-inputs", "single/funded-by-mint", "pair(+|q|,-|q|)/unfunded", "single/unfunded(control)"}
@@ -226,7 +226,6 @@ func (w *world) build(k caseT) (spec *TxSpec, stub *Stub, wireQs []*big.Int, ok 
 	return spec, stub, wireQs, true
 }
 
-
 type result struct {
 	decoded  bool
 	decErr   string
@@ -294,7 +293,6 @@ func (w *world) runSpec(env *EraEnv, k caseT, spec *TxSpec, stub *Stub, wireQs [
 	res.viol = res.accepted && outOfRange
 	return res, txb
 }
-
 
 func unwrap(e error) error {
 	for {
